@@ -17,6 +17,7 @@ and through a cash-only TradingEnv episode (zero-weight actions, constant rate p
 The reference model (class Ref) is written from the statement only: decimal arithmetic, elapsed
 seconds taken from the integers of the case (never from tradingenv), year = 31 536 000 s.
 """
+import math
 from datetime import datetime, timedelta
 from decimal import Decimal, localcontext
 
@@ -82,7 +83,7 @@ class Ref:
     def __init__(self, cash, r, markup):
         self.r = Decimal(r)
         self.m = Decimal(markup)
-        self.bal = Decimal(cash)
+        self.bal = +Decimal(cash)
         self._ln = {}
 
     def _lng(self, sign):
@@ -109,7 +110,7 @@ class Ref:
         return inc
 
     def closed_form(self, cash, seconds):
-        cash = Decimal(cash)
+        cash = +Decimal(cash)
         if cash == 0:
             return cash
         lng = self._lng(1 if cash > 0 else -1)
@@ -118,12 +119,14 @@ class Ref:
 
 def near(x, ref, n):
     """balance comparison: rel 1e-9 * (#accruals + 1)"""
-    return abs(Decimal(float(x)) - ref) <= REL * (n + 1) * abs(ref)
+    x = float(x)
+    return math.isfinite(x) and abs(Decimal(x) - ref) <= REL * (n + 1) * abs(ref)
 
 
 def near_inc(x, ref, bal):
     """one increment: abs 1e-9 * |balance| (money identity scale)"""
-    return abs(Decimal(float(x)) - ref) <= REL * abs(bal)
+    x = float(x)
+    return math.isfinite(x) and abs(Decimal(x) - ref) <= REL * abs(bal)
 
 
 # ------------------------------------------------------------------------------- building brokers
@@ -184,7 +187,7 @@ def model_opening(setup):
     price*|q|*multiplier*margin_requirement."""
     mode = setup["mode"]
     if mode == "deposit":
-        c = Decimal(setup["cash"])
+        c = +Decimal(setup["cash"])             # unary plus: round the exact binary value to 50 digits
         return c, Decimal(0), abs(c)
     dep, q = Decimal(setup["deposit"]), Decimal(setup["qty"])
     bid, ask = Decimal(setup["bid"]), Decimal(setup["ask"])
@@ -309,13 +312,13 @@ def _run_broker(case):
     if err:
         res.fail(err)
         return res
-    if cash0 > 0 and ret < 0:
+    if opened > 0 and ret < 0:
         res.fail("positive cash %r charged %r over %d s (r=%r markup=%r)" % (opened, ret, T, r, markup))
     if not near_inc(ret, final_ref - cash0, final_ref):
-        res.fail("single accrual over %d s on cash %s returned %r, closed form %.17g (r=%r markup=%r)" % (
+        res.fail("single accrual over %d s on cash %.17g returned %r, closed form %.17g (r=%r markup=%r)" % (
             T, cash0, ret, final_ref - cash0, r, markup))
     if not near(cash_of(A), final_ref, 1):
-        res.fail("cash after one accrual over %d s is %r, closed form %.17g (start %s r=%r markup=%r)" % (
+        res.fail("cash after one accrual over %d s is %r, closed form %.17g (start %.17g r=%r markup=%r)" % (
             T, cash_of(A), final_ref, cash0, r, markup))
     if others(A) != still:
         res.fail("an accrual changed holdings other than cash or the posted margin: %s -> %s" % (still, others(A)))
@@ -353,7 +356,7 @@ def _run_broker(case):
     if abs(ref.bal - final_ref) > Decimal("1e-40") * max(abs(final_ref), Decimal(1)):
         raise AssertionError("reference model inconsistent: stepwise %s closed form %s" % (ref.bal, final_ref))
     if not near(b_cash[-1], final_ref, n):
-        res.fail("cash after %d accruals over %d s is %r, closed form %.17g (start %s r=%r markup=%r)" % (
+        res.fail("cash after %d accruals over %d s is %r, closed form %.17g (start %.17g r=%r markup=%r)" % (
             n, T, b_cash[-1], final_ref, cash0, r, markup))
     # (ii) split invariance, A against B directly
     if abs(Decimal(cash_of(A)) - Decimal(b_cash[-1])) > REL * (n + 2) * abs(final_ref):
@@ -535,7 +538,7 @@ def _run_rebalance(case):
         if abs(ref.bal - final_ref) > Decimal("1e-40") * max(abs(final_ref), Decimal(1)):
             raise AssertionError("reference model inconsistent: stepwise %s closed form %s" % (ref.bal, final_ref))
         if not near(cash_of(broker), final_ref, done):
-            res.fail("cash after %d rebalances over %d s is %r, closed form %.17g (start %s r=%r markup=%r)" % (
+            res.fail("cash after %d rebalances over %d s is %r, closed form %.17g (start %.17g r=%r markup=%r)" % (
                 done, offset, cash_of(broker), final_ref, cash0, r, markup))
         # same instant: nothing more to accrue right after a rebalance
         s0 = snap(broker)
@@ -627,7 +630,7 @@ def _run_env(case):
 
 # ------------------------------------------------------------------------------------- strategies
 
-RATES_MICRO = [0, 10000, 30000, 50000, 125000, 200000, 249900, -10000, -20000, -50000, 1]
+RATES_MICRO = [0, 10000, 30000, 50000, 125000, 200000, 249900, -10000, -50000, 1]
 MARKUPS_MICRO = [0, 0, 5000, 10000, 50000, 100000]
 SPANS = [1, 2, 59, 3600, 86399, 86400, 7 * 86400, 30 * 86400, 360 * 86400, YEAR - 1, YEAR, 366 * 86400,
          2 * YEAR, 10 * YEAR, 30 * YEAR + 12345, 50 * YEAR]
@@ -636,11 +639,11 @@ CASH = [0.01, 1.0, 3.5, 100.0, 250.0, 12345.678, 1e6, 1e9]
 
 @st.composite
 def rate_markup(draw):
-    ri = draw(st.one_of(st.sampled_from(RATES_MICRO), st.integers(1, 249900), st.integers(1, 249900),
-                        st.integers(-50000, -1)))
+    ri = draw(st.one_of(st.sampled_from(RATES_MICRO), st.integers(1, 249900), st.integers(1000, 249900),
+                        st.integers(10000, 249900), st.integers(-50000, -1)))
     top = 1_000_000 + ri - 1000                       # keeps 1 + r - markup >= 0.001
     mi = draw(st.one_of(st.sampled_from(MARKUPS_MICRO), st.integers(0, 20000), st.integers(0, max(ri, 1)),
-                        st.integers(0, 300000), st.integers(300000, top)))
+                        st.integers(1, max(ri, 1)), st.integers(0, 300000), st.integers(300000, top)))
     return ri / 1e6, min(mi, top) / 1e6
 
 
@@ -752,3 +755,34 @@ PARTS = [
     Part("broker", strategy=lambda tier: broker_cases(tier), run=run_broker, quick=12000, thorough=300000),
     Part("rebalance", strategy=lambda tier: rebalance_cases(tier), run=run_rebalance, quick=3000, thorough=60000),
 ]
+
+
+# ------------------------------------------------------------------------------- sensitivity record
+# Mutants injected one at a time into a scratch copy (VERIF_PKG_ROOT=/tmp/c06mut ./check C06 --tier quick
+# --no-evidence, seed 1). Every one gave exit 1 with a VIOLATION line; "parts" = parts that reported it.
+#
+#   from the DESIGN "must catch" list / task list (all in broker.py, Broker.accrued_interest)
+#   year360                  SECONDS_IN_YEAR = 360 days                              broker, rebalance
+#   year366                  SECONDS_IN_YEAR = 366 days                              broker, rebalance
+#   simple                   rate_period = cagr * years                              broker, rebalance
+#   markup_always_minus      cagr = mid - markup (sign of cash ignored)              broker, rebalance
+#   query_mutates_clock      _last_accrual = now also when accrue=False              broker
+#   interest_on_margin       amount = cash + sum(margins)                            broker, rebalance
+#   past_check_removed       no ValueError for now < last accrual                    broker
+#   past_check_le            `now <= last` rejected (same-instant / first call)      broker, rebalance
+#   floor_removed            positive cash charged when r - markup < 0               broker, rebalance
+#   own, subtle
+#   markup_only_on_loans     markup * min(sign, 0): idle cash earns the full rate    broker, rebalance
+#   interest_on_initial_deposit  interest on the initial deposit, not the balance    broker (split twin / stepwise reference)
+#   cagr_floored_both_signs  max(cagr, 0): debt does not shrink when r + markup < 0  broker, rebalance
+#   rebalance_does_not_accrue  Broker.rebalance calls accrued_interest(.., False)    rebalance
+#   days_only                years from timedelta.days (intraday seconds dropped)    broker, rebalance
+#   floor_any_sign           floor applied to debt as well (loans never charged)     broker, rebalance
+#   clock_not_moved_when_zero  accrue with zero interest leaves _last_accrual        broker
+#   past_check_seconds_resolution / past_check_same_day  sub-second / same-day past accepted   broker
+#   margin_interest_when_borrowing  margin added to the base only when cash < 0      broker, rebalance
+#   year365_25, continuous (exp(cagr*years)), markup_multiplicative ((1+r)(1-m)-1)   broker, rebalance
+#   markup_sign_from_equity  markup follows the sign of the equity, not of the cash  broker, rebalance
+#   query_moves_clock_when_zero  a query returning 0 moves the clock                 broker
+#   env.py: reset seeds the rate book with 0.01 instead of 0 / does not seed it      rebalance (env episode, rate never quoted)
+# Missed: none.
